@@ -9,7 +9,7 @@ From Coq Require Import ZArith Reals List Bool.
 From Rubato.Model Require Import Num Reals Base Validate Async Resamplers.
 From Rubato.Model Require Floats Driver.
 From Rubato.Gen Require Import FastGen.
-From Rubato.Proofs Require Import MalformedP EngineP FastInR FastOutR FastCtorR SincInR SincCtorR.
+From Rubato.Proofs Require Import MalformedP EngineP FastInR FastOutR FastCtorR SincInR SincOutR SincCtorR.
 From Rubato.Gen Require Import SincGen.
 Import ListNotations.
 Local Open Scope R_scope.
@@ -90,6 +90,31 @@ Theorem C03_ctor_sinc_in_R : forall ratio maxrel env ilen inbr chunk nch s,
   si_wf env s /\ ratio = sratio s /\ sL s = ilen.
 Proof. exact si_ctor_wf_R. Qed.
 
+(** SincFixedOut, constant ratio, any set_chunk_size schedule *)
+Theorem C03_sinc_out_call_safe_R : forall env blen (s : @astate CR SR (@SincFixedOut CR)) wi wo m,
+  so_wf env blen s -> a_precheck (@so_arch CR SR env) s wi wo m = Ok tt ->
+  exists s' outs,
+    pib (@so_arch CR SR env) s wi wo m = Ok (s', (uneeded s, uC s), outs) /\ so_wf env blen s' /\
+    uli s' = uli s + IZR (uC s) * / uratio s - IZR (uneeded s) /\
+    uC s' = uC s /\ uCmax s' = uCmax s /\ unch s' = unch s /\ uratio s' = uratio s /\ uL s' = uL s /\ (0 <= uneeded s)%Z.
+Proof. exact so_call_const_R. Qed.
+
+Theorem C03_sinc_out_run_safe_R : forall env blen ops (s : @astate CR SR (@SincFixedOut CR)), so_wf env blen s ->
+  (forall n, In (OChunk n) ops -> (0 <= n)%Z) ->
+  match so_run env s ops with
+  | Ok (s', nin, nout) => so_wf env blen s' /\ uratio s' = uratio s /\ uL s' = uL s /\ (0 <= nin)%Z /\ (0 <= nout)%Z /\
+                          uli s' - uli s = IZR nout * / uratio s - IZR nin
+  | Err _ => True
+  | Panic _ | UB _ | Diverge => False
+  end.
+Proof. exact so_history_const_R. Qed.
+
+Theorem C03_ctor_sinc_out_R : forall ratio maxrel env ilen inbr chunk nch s,
+  (1 <= chunk)%Z -> (0 <= nch)%Z -> (8 <= ilen)%Z -> (ilen mod 2 = 0)%Z -> nbr_ok (se_type env) inbr ->
+  @sinc_out_new CR SR ratio maxrel env ilen inbr chunk nch = inr (RSincOut env s) ->
+  exists blen, so_wf env blen s /\ ratio = uratio s /\ uL s = ilen.
+Proof. exact so_ctor_wf_R. Qed.
+
 (** the reads of the polynomial resampler are inside the buffer exactly when the window is *)
 Theorem C03_fast_window_R : forall (st : @FastFixedIn CR) d (buf : list (@snum CR SR)) (idx : R),
   (0 <= Flocq.Core.Raux.Zfloor idx - reach_lo d + 16)%Z ->
@@ -111,3 +136,6 @@ Print Assumptions C03_ctor_fast_out_R.
 Print Assumptions C03_sinc_in_call_safe_R.
 Print Assumptions C03_sinc_in_run_safe_R.
 Print Assumptions C03_ctor_sinc_in_R.
+Print Assumptions C03_sinc_out_call_safe_R.
+Print Assumptions C03_sinc_out_run_safe_R.
+Print Assumptions C03_ctor_sinc_out_R.
